@@ -4,7 +4,7 @@
 use super::hist::words;
 use super::trk::*;
 use crate::common::*;
-use crate::sched::{run_jobs, Guarded};
+use crate::sched::{self, run_jobs, Guarded};
 use serde_json::json;
 use std::collections::BTreeMap;
 use std::sync::Arc;
@@ -65,7 +65,7 @@ fn hist_json(lists: &[Vec<Det>], h: &[Call]) -> serde_json::Value {
 pub fn run_c04(tier: Tier) -> Report {
     let rep = Report::new("C04", tier);
     let ls = Arc::new(tie_free_lists());
-    rep.set_rule("every history of depth <= D (quick 4, thorough 5) over predict(scene in {0,1,2}, one of 7 tie-free detection lists occupying the same image region in every scene), on Sort / VisualSort / BatchSort / BatchVisualSort x IoU / Mahalanobis; differential oracle: for every scene the records of the interleaved run equal those of a fresh tracker fed only that scene's calls (boxes, epochs, lengths, voting type bit for bit, ids up to an incrementally built bijection), and no record carries an id first issued in another scene. For the batch trackers additionally every history of depth <= 2 (3 thorough) over single-scene and TWO-SCENE batches (5 lists incl. mutual occlusion and a jump beyond positional reach) with own-area thresholds on / off: every scene of a shared batch must equal the run of a fresh tracker fed that scene alone. Plus an expiry family: max idle 0, the store-wide collection of expired tracks every 1 / 2 / 3 calls, every history of depth <= 5 (thorough 6) over 2 scenes x 3 lists on all four trackers, same differential oracle. Non-trivial = history touching at least two scenes.");
+    rep.set_rule("every history of depth <= D (quick 4, thorough 5) over predict(scene in {0,1,2}, one of 7 tie-free detection lists occupying the same image region in every scene), on Sort / VisualSort / BatchSort / BatchVisualSort x IoU / Mahalanobis; differential oracle: for every scene the records of the interleaved run equal those of a fresh tracker fed only that scene's calls (boxes, epochs, lengths, voting type bit for bit, ids up to an incrementally built bijection), and no record carries an id first issued in another scene. For the batch trackers additionally every history of depth <= 2 (3 thorough) over single-scene and TWO-SCENE batches (5 lists incl. mutual occlusion and a jump beyond positional reach) with own-area thresholds on / off: every scene of a shared batch must equal the run of a fresh tracker fed that scene alone. Plus an expiry family: max idle 0, the store-wide collection of expired tracks every 1 / 2 / 3 calls, every history of depth <= 5 (thorough 6) over 2 scenes x 3 lists on all four trackers, same differential oracle. Schedule part (batch trackers, pipelined use: consumer threads retrieve while the next batch is submitted, 1-2 voting threads): every interleaving within a deviation bound of batch sequences in which a scene is followed by a batch of foreign scenes only and then appears again (A / B / A), or is absent from a batch; every scene's records must equal its solo run. Non-trivial = history touching at least two scenes.");
     rep.assume("tie-free inputs (no exact duplicates): both runs perform the same arithmetic per scene if isolation holds; sequential use under the default schedule");
     let depth = tier.pick(4usize, 5usize);
     let nl = ls.len();
@@ -158,10 +158,88 @@ pub fn run_c04(tier: Tier) -> Report {
     rep.distinct_count(nontrivial);
     run_multi_scene_batches(&rep, tier);
     run_expiry_family(&rep, tier);
+    run_schedules(&rep, tier);
     rep.sample(json!({"history":[[0,2],[1,2],[0,1],[1,5]],"meaning":"(scene, list index); scene 0 and 1 see the same boxes"}));
     rep
 }
 
+
+/// per scene: what a fresh batch tracker of the same configuration reports when it is fed only that scene's
+/// part of the batch sequence (sequential use, default schedule)
+pub fn solo_runs(cfg: &TrkCfg, variant: usize) -> BTreeMap<u64, Vec<Vec<Rec>>> {
+    let bs = super::c06::batches(variant);
+    let scenes: std::collections::BTreeSet<u64> = bs.iter().flat_map(|b| b.iter().map(|x| x.0)).collect();
+    let c = cfg.clone();
+    sched::in_shuttle(move || {
+        let mut out = BTreeMap::new();
+        for s in scenes.iter().cloned() {
+            let mut t = Guarded::new(AnyTrk::new(&c));
+            let mut seq = vec![];
+            for b in &bs {
+                if let Some((_, ds)) = b.iter().find(|x| x.0 == s) {
+                    seq.push(t.predict(s, ds));
+                }
+            }
+            out.insert(s, seq);
+        }
+        out
+    })
+    .unwrap_or_else(|e| machinery_error(&format!("C04 solo reference run failed: {e}")))
+}
+
+/// scene isolation judged on a complete, possibly pipelined run of a batch tracker under an explored
+/// schedule: every scene's records equal its solo run up to renaming of ids; no id in two scenes
+pub fn batch_isolation_with(ro: &super::c06::RunOut, solo: &BTreeMap<u64, Vec<Vec<Rec>>>) -> Result<(), (String, String)> {
+    let mut per_scene: BTreeMap<u64, Vec<Vec<Rec>>> = BTreeMap::new();
+    for got in &ro.obs {
+        let mut g = got.clone();
+        g.sort_by_key(|x| x.0);
+        for (s, recs) in g {
+            per_scene.entry(s).or_default().push(recs);
+        }
+    }
+    let mut owner: BTreeMap<u64, u64> = BTreeMap::new();
+    for (s, seq) in &per_scene {
+        let exp = solo.get(s).cloned().unwrap_or_default();
+        if exp.len() != seq.len() {
+            return Err(("isolation/scene-call-count".into(), format!("scene {s}: {} results, {} calls", seq.len(), exp.len())));
+        }
+        let (mut m, mut rm) = (BTreeMap::new(), BTreeMap::new());
+        for (k, (a, b)) in seq.iter().zip(exp.iter()).enumerate() {
+            if let Err(e) = same_records(a, b, &mut m, &mut rm, false) {
+                return Err(("isolation/scene-differs-from-its-solo-run".into(), format!("[batch run under an explored schedule] scene {s}, its call #{k}: {e}")));
+            }
+            for r in a {
+                if *owner.entry(r.id).or_insert(*s) != *s {
+                    return Err(("isolation/track-crosses-scenes".into(), format!("track {} in scenes {} and {s}", r.id, owner[&r.id])));
+                }
+            }
+        }
+    }
+    Ok(())
+}
+
+pub fn batch_isolation(ro: &super::c06::RunOut, cfg: &TrkCfg, variant: usize) -> Result<(), (String, String)> {
+    batch_isolation_with(ro, &solo_runs(cfg, variant))
+}
+
+fn run_schedules(rep: &Report, tier: Tier) {
+    let mut scen = vec![];
+    let slice = tier.pick(2.0f64, 60.0f64);
+    for kind in [Kind::BatchSort, Kind::BatchVisualSort] {
+        // (voting shards, batch variant, discipline, largest deviation bound)
+        let plan: Vec<(usize, usize, usize, usize)> = vec![(1, 4, 1, tier.pick(2, 4)), (2, 4, 1, tier.pick(2, 4)), (2, 1, 1, tier.pick(2, 4))];
+        for (vs, variant, discipline, max_bound) in plan {
+            let mut cfg = TrkCfg::new(kind);
+            cfg.shards = 1;
+            cfg.voting_shards = vs;
+            cfg.max_idle = 2;
+            let solo = solo_runs(&cfg, variant);
+            scen.push(super::c06::explore_batch(rep, "isolation", &cfg, variant, discipline, false, max_bound, slice, &|o| batch_isolation_with(o, &solo)));
+        }
+    }
+    rep.extra("schedule_part", json!(scen));
+}
 
 /// Expiry family: tracks expire at once (max_idle 0) and the store-wide collection of expired tracks
 /// runs every 1 / 2 / 3 calls, so calls on another scene shift the moment at which a scene's expired
